@@ -15,7 +15,7 @@ static i128 zval(const z_number &z) {
   return z < z_number(0) ? -r : r; }
 static z_number mkz(i128 v) { bool neg = v < 0; u128 u = neg ? (u128)(-v) : (u128)v; z_number hi = z_number::from_uint64((uint64_t)(u >> 64)), lo = z_number::from_uint64((uint64_t)u);
   z_number r = (hi << z_number(64)) + lo; return neg ? -r : r; }
-static i128 wz(const Wit &w, const std::string &p) { return (i128)(((u128)w.u(p + ".f0.a[0].f1") << 64) | (u128)w.u(p + ".f0.a[0].f0")); }
+static i128 wz(const Wit &w, const std::string &p) { return (i128)(((u128)w.u(p + ".f0.a.f1") << 64) | (u128)w.u(p + ".f0.a.f0")); }
 static i128 wg(const Wit &w, const char *n) { return (i128)(long long)w.u(n); }   // ghost points lie in (-2^40, 2^40)
 static RB mkb(const Wit &w, const std::string &p) { bool inf = w.u(p + ".f0") != 0; i128 v = wz(w, p + ".f1"); if (inf) return v > 0 ? RB::plus_infinity() : RB::minus_infinity(); return RB(mkz(v)); }
 static RI mki(const Wit &w, const std::string &p) { RI r; r._lb = mkb(w, p + ".f0"); r._ub = mkb(w, p + ".f1"); return r; }  // raw, exactly the witness fields
